@@ -87,3 +87,38 @@ def own_future_may_only_be_cancelled(engine, futs):
             st.assume(ns != RUNNING)
             callbacks_list_rely(st, old, oid)
     return hook
+
+
+class RecordCall(object):
+    """Call-site contract that only records the call (callee under its own contract elsewhere):
+    Event('repo-call', meth=<qualname>, args=[...]) and returns `ret`."""
+    inline = False
+
+    def __init__(self, ret=None):
+        self.ret = ret
+
+    def apply(self, engine, st, fr, func, args, kwargs, star, starkw, node):
+        from pyvc.state import Event
+        from pyvc.vals import TupleV
+        args = list(args)
+        if isinstance(star, TupleV):
+            args += list(star.items)
+        st.trace.append(Event("repo-call", meth=func.qualname, args=[engine.to_val(st, a) for a in args],
+                              kwargs={k: engine.to_val(st, v) for k, v in kwargs.items()}, site=engine.site(fr, node)))
+        yield st, self.ret
+
+
+def simulate_callback(engine, st, fr, cb, arg, prepare=None):
+    """Run a registered callback later, on a copy of the state (for `what does the callback we just
+    registered do when it fires` clauses).  Returns [(state, outcome, events)]."""
+    s2 = st.copy()
+    if prepare:
+        prepare(s2)
+    n0 = len(s2.trace)
+    saved = engine.cfg.concurrent
+    engine.cfg.concurrent = False
+    try:
+        outs = [(s3, r, s3.trace[n0:]) for s3, r in engine.call(s2, fr, cb, [arg], {}, None, None, None)]
+    finally:
+        engine.cfg.concurrent = saved
+    return outs
